@@ -1,5 +1,84 @@
-(* C09 - placeholder until the proofs are written *)
-From LedgerV Require Import Base.Prelude Base.Round Model.Amount Model.Xact Model.Assert.
-Theorem strip_keeps_quantity : forall a, aq (strip a) = aq a.
-Proof. reflexivity. Qed.
-Print Assumptions strip_keeps_quantity.
+(* C09 - balance assertions and assignments use the true running balance in file order.
+   Property theorems only; proofs in Proofs/AssertProofs.v.
+   hist = the postings that have reached their accounts so far, in FILE order (dates are not
+   even part of the state: they cannot play a role); running hist acct real_only c = the exact
+   sum, in commodity c, of the postings to exactly account acct (real ones only, or all);
+   earlier = the postings of the same transaction read before this one;
+   expected_diff = asserted - running - earlier (real_only for an assertion on a real posting,
+   everything for one on a virtual posting). *)
+From LedgerV Require Import Base.Prelude Base.Round Model.Amount Model.Xact Model.Assert
+  Proofs.AmountProofs Proofs.XactProofs Proofs.AssertProofs.
+From Coq Require Import Qabs.
+Local Open Scope Q_scope.
+
+(* the account total used by an assertion is the exact sum of that account's own postings *)
+Theorem account_total_is_running_sum : forall ord acct ro c hist acc v,
+  acct_total ord hist acct ro acc = Ok v -> den v c == den acc c + running hist acct ro c.
+Proof. exact acct_total_exact. Qed.
+Print Assumptions account_total_is_running_sum.
+
+(* a posting to any other account - a sub-account in particular - does not contribute *)
+Theorem other_accounts_do_not_contribute : forall hist acct ro c h,
+  str_eqb (a_acct h) acct = false -> running (hist ++ [h]) acct ro c == running hist acct ro c.
+Proof. exact running_other_account. Qed.
+Print Assumptions other_accounts_do_not_contribute.
+
+(* ASSERTION `acct  a = amt`: decided on a balance whose entry in amt's commodity is exactly
+   asserted - running - earlier - own, and which is empty elsewhere; accepted unchanged iff
+   that displays as zero (or --permissive), else "Balance assertion off by" *)
+Theorem assertion_decided_on_true_running_balance : forall ord cp permissive hist earlier w a amt k r,
+  w_assigned w = Some amt -> p_amt (w_post w) = Some a -> acomm amt = Some k ->
+  resolve_assigned ord cp permissive hist earlier w = r ->
+  (exists e, r = Err e /\ e <> EAssertOff) \/
+  exists d4, nodup_keys d4 /\
+    bden d4 (Some k) == expected_diff hist earlier (w_post w) amt k - own_part a amt k /\
+    (forall c, comm_eqb (Some k) c = false -> bden d4 c == 0) /\
+    r = if negb permissive && negb (bal_is_zero cp d4) then Err EAssertOff else Ok (w_post w).
+Proof. exact assertion_spec. Qed.
+Print Assumptions assertion_decided_on_true_running_balance.
+
+(* display-zero means: exactly zero is accepted, a whole unit is never accepted *)
+Theorem exact_zero_difference_displays_zero : forall cp b,
+  nodup_keys b -> (forall c, bden b c == 0) -> bal_is_zero cp b = true.
+Proof. exact bal_zero_is_zero. Qed.
+Print Assumptions exact_zero_difference_displays_zero.
+
+Theorem display_zero_difference_below_one_unit : forall cp b c,
+  (forall k, 0 <= cp k <= 230)%Z -> nodup_keys b -> bal_is_zero cp b = true -> Qabs (bden b c) < 1.
+Proof. exact bal_is_zero_lt_unit. Qed.
+Print Assumptions display_zero_difference_below_one_unit.
+
+(* ASSIGNMENT `acct  = amt`: the posting receives exactly asserted - running - earlier, or the
+   zero of amt's commodity when that difference displays as zero *)
+Theorem assignment_receives_exact_difference : forall ord cp permissive hist earlier w amt k p',
+  w_assigned w = Some amt -> p_amt (w_post w) = None -> acomm amt = Some k ->
+  resolve_assigned ord cp permissive hist earlier w = Ok p' ->
+  exists x, p_amt p' = Some x /\ p_acct p' = p_acct (w_post w) /\ p_kind p' = p_kind (w_post w) /\
+    ((aq x == expected_diff hist earlier (w_post w) amt k /\ is_zero cp x = false) \/
+     (aq x == 0 /\ acomm x = Some k /\
+      ((forall c0 : comm, (0 <= cp c0 <= 230)%Z) -> Qabs (expected_diff hist earlier (w_post w) amt k) < 1))).
+Proof. exact assignment_spec. Qed.
+Print Assumptions assignment_receives_exact_difference.
+
+(* --permissive: no assertion fails; whatever was accepted stays accepted; assignments unchanged *)
+Theorem permissive_never_fails_an_assertion : forall ord cp hist earlier w,
+  resolve_assigned ord cp true hist earlier w <> Err EAssertOff /\
+  (forall p, resolve_assigned ord cp false hist earlier w = Ok p ->
+             resolve_assigned ord cp true hist earlier w = Ok p) /\
+  (p_amt (w_post w) = None ->
+   resolve_assigned ord cp true hist earlier w = resolve_assigned ord cp false hist earlier w).
+Proof. exact permissive_skips. Qed.
+Print Assumptions permissive_never_fails_an_assertion.
+
+(* non-vacuity: history  A $10.00 ; (A) $5.00 ; then  `A  $2.50 = $12.50`  is accepted (the
+   virtual posting is not counted for an assertion on a real posting), `(A)  $1.00 = $16.00`
+   is accepted (everything is counted), and  `A  $2.50 = $13.50`  is rejected *)
+Example assertion_examples :
+  let usd := Some [36%Z] in
+  let h := [mkA [65%Z] false (mkAmt 10 2 false usd); mkA [65%Z] true (mkAmt 5 2 false usd)] in
+  let mk kind a asg := mkW (mkPost [65%Z] kind (Some (mkAmt a 2 false usd)) None None false false false)
+                           (Some (mkAmt asg 2 false usd)) in
+  (exists p, resolve_assigned false (fun _ => 2%Z) false h [] (mk PReal (5 # 2) (25 # 2)) = Ok p) /\
+  (exists p, resolve_assigned false (fun _ => 2%Z) false h [] (mk PVirtual 1 16) = Ok p) /\
+  resolve_assigned false (fun _ => 2%Z) false h [] (mk PReal (5 # 2) (27 # 2)) = Err EAssertOff.
+Proof. cbn zeta. repeat split; try (eexists; vm_compute; reflexivity). vm_compute. reflexivity. Qed.
